@@ -35,7 +35,7 @@ type stats struct {
 	stalledDuringWrite, burstCoalesced, burstWithDelete, timeoutFired, shortStallSurvived     bool
 	exactChecked, removeWithSub, removeStarSurvives, resetSeen, staticRound, dynamicRound     bool
 	modelAmbiguous, backdated, richNames, sleptWithACL, parkedInsideFeed, removeReaddRace     bool
-	startedWhileInsideFeed, mixedEnc, nilPath, perPathOrigins                                 bool
+	startedWhileInsideFeed, mixedEnc, nilPath, perPathOrigins, rpcDeadline                    bool
 	skippedSteps, maxBulk, maxOnceLeaves                                                      int
 }
 
@@ -78,6 +78,7 @@ func (s *stats) labels() []string {
 	add(s.removeReaddRace, "remove-racing-with-re-add-and-update")
 	add(s.mixedEnc, "writer-notification-in-deprecated-or-mixed-path-encoding")
 	add(s.nilPath, "subscription-with-unset-path")
+	add(s.rpcDeadline, "stream-context-carries-an-rpc-deadline")
 	add(s.perPathOrigins, "paths-of-one-request-with-different-origins")
 	add(s.backdated, "backdated-notification")
 	add(s.richNames, "names-with-common-string-prefix-or-slash")
@@ -252,21 +253,22 @@ type writer struct {
 type world struct {
 	// callback gate: the harness owns the cache's change-feed callback, so a writer can be
 	// parked inside it (before or after the entry is forwarded) without any hook in the code
-	cbMu    sync.Mutex
-	cbPoint string
-	cbArm   int
-	t       *testing.T
-	sc      *Scenario
-	prop    string
-	chk     map[string]bool
-	c       *cache.Cache
-	srv     *subscribe.Server
-	g       *gates
-	acl     *aclDouble
-	subs    []*subState
-	step    int
-	ts      int64
-	base    time.Time
+	cleanups []func()
+	cbMu     sync.Mutex
+	cbPoint  string
+	cbArm    int
+	t        *testing.T
+	sc       *Scenario
+	prop     string
+	chk      map[string]bool
+	c        *cache.Cache
+	srv      *subscribe.Server
+	g        *gates
+	acl      *aclDouble
+	subs     []*subState
+	step     int
+	ts       int64
+	base     time.Time
 
 	mu        sync.Mutex
 	fed       []fedEntry
@@ -795,7 +797,16 @@ func (w *world) stepStart(st Step) {
 			w.st.startedWhileInsideFeed = true
 		}
 	}
-	s.stream = newMemStream(context.Background(), s.spec.User, s.i, w.now, w.curStep)
+	parent := context.Background()
+	if s.spec.Deadline {
+		// the caller's RPC deadline as gRPC hands it to the handler; far enough away (a day of
+		// virtual time) never to expire within a scenario. The timer it arms is stopped with the stream.
+		var stop context.CancelFunc
+		parent, stop = context.WithTimeout(parent, 24*time.Hour)
+		w.cleanups = append(w.cleanups, stop)
+		w.st.rpcDeadline = true
+	}
+	s.stream = newMemStream(parent, s.spec.User, s.i, w.now, w.curStep)
 	if !s.spec.Gated {
 		s.stream.free()
 	}
@@ -1016,6 +1027,9 @@ func run(t *testing.T, sc *Scenario, prop string) (st *stats, err error) {
 					s.stream.free()
 					s.stream.cancel()
 				}
+			}
+			for _, f := range w.cleanups {
+				f()
 			}
 			synctest.Wait()
 		}()
